@@ -28,7 +28,7 @@ theorem payloadOf_setRc (h : Heap) (id i n : Nat) : payloadOf (setRc h id n) i =
 
 theorem pocc_setRc (h : Heap) (id i n : Nat) : pocc i (setRc h id n) = pocc i h := by
   rcases Nat.lt_or_ge id h.allocs.length with hl | hl
-  · have := pocc_setAlloc h id i ⟨payloadOf h id, n⟩ hl
+  · have := pocc_setAlloc h id i ⟨payloadOf h id, n, keysOf h id⟩ hl
     simp only [setRc]; simp at this; omega
   · exact pocc_setAlloc_ge h id i _ hl
 
@@ -44,10 +44,42 @@ theorem payloadOf_setPayload (h : Heap) (id i : Nat) (p : List Val) :
 
 theorem pocc_setPayload (h : Heap) (id i : Nat) (p : List Val) (hl : id < h.allocs.length) :
     pocc i (setPayload h id p) + occ i (payloadOf h id) = pocc i h + occ i p := by
-  simpa [setPayload] using pocc_setAlloc h id i ⟨p, rcOf h id⟩ hl
+  simpa [setPayload] using pocc_setAlloc h id i ⟨p, rcOf h id, keysOf h id⟩ hl
+
+theorem keysOf_setRc (h : Heap) (id i n : Nat) : keysOf (setRc h id n) i = keysOf h i := by
+  simp only [setRc, keysOf_setAlloc]
+  split
+  · rename_i hc; rw [hc.1]
+  · rfl
+
+theorem keysOf_setPayload (h : Heap) (id i : Nat) (p : List Val) : keysOf (setPayload h id p) i = keysOf h i := by
+  simp only [setPayload, keysOf_setAlloc]
+  split
+  · rename_i hc; rw [hc.1]
+  · rfl
+
+@[simp] theorem setEntries_length (h : Heap) (id : Nat) (p : List Val) (ks : List Int) :
+    (setEntries h id p ks).allocs.length = h.allocs.length := by simp [setEntries]
+@[simp] theorem setEntries_copied (h : Heap) (id : Nat) (p : List Val) (ks : List Int) :
+    (setEntries h id p ks).copied = h.copied := rfl
+theorem rcOf_setEntries (h : Heap) (id i : Nat) (p : List Val) (ks : List Int) :
+    rcOf (setEntries h id p ks) i = rcOf h i := by
+  simp only [setEntries, rcOf_setAlloc]
+  split
+  · rename_i hc; rw [hc.1]
+  · rfl
+theorem payloadOf_setEntries (h : Heap) (id i : Nat) (p : List Val) (ks : List Int) :
+    payloadOf (setEntries h id p ks) i = if i = id ∧ id < h.allocs.length then p else payloadOf h i := by
+  simp [setEntries, payloadOf_setAlloc]
+theorem keysOf_setEntries (h : Heap) (id i : Nat) (p : List Val) (ks : List Int) :
+    keysOf (setEntries h id p ks) i = if i = id ∧ id < h.allocs.length then some ks else keysOf h i := by
+  simp [setEntries, keysOf_setAlloc]
+theorem pocc_setEntries (h : Heap) (id i : Nat) (p : List Val) (ks : List Int) (hl : id < h.allocs.length) :
+    pocc i (setEntries h id p ks) + occ i (payloadOf h id) = pocc i h + occ i p := by
+  simpa [setEntries] using pocc_setAlloc h id i ⟨p, rcOf h id, some ks⟩ hl
 
 theorem PayloadExt.setRc (h : Heap) (id n : Nat) : PayloadExt h (setRc h id n) :=
-  ⟨by simp, fun i _ => payloadOf_setRc h id i n⟩
+  ⟨by simp, fun i _ => payloadOf_setRc h id i n, fun i _ => keysOf_setRc h id i n⟩
 
 /-! ### dup / bumpAll -/
 
@@ -56,6 +88,9 @@ theorem dup_length (h : Heap) (v : Val) : (dup h v).allocs.length = h.allocs.len
 
 theorem payloadOf_dup (h : Heap) (v : Val) (i : Nat) : payloadOf (dup h v) i = payloadOf h i := by
   cases v <;> simp [dup, payloadOf_setRc]
+
+theorem keysOf_dup (h : Heap) (v : Val) (i : Nat) : keysOf (dup h v) i = keysOf h i := by
+  cases v <;> simp [dup, keysOf_setRc]
 
 theorem pocc_dup (h : Heap) (v : Val) (i : Nat) : pocc i (dup h v) = pocc i h := by
   cases v <;> simp [dup, pocc_setRc]
@@ -80,7 +115,7 @@ theorem rcOf_dup (h : Heap) (v : Val) (i : Nat) (hv : Live h v) :
       simp [hi, this]
 
 theorem PayloadExt.dup (h : Heap) (v : Val) : PayloadExt h (dup h v) :=
-  ⟨by simp [dup_length], fun i _ => payloadOf_dup h v i⟩
+  ⟨by simp [dup_length], fun i _ => payloadOf_dup h v i, fun i _ => keysOf_dup h v i⟩
 
 theorem Live.ext {h h' : Heap} {v : Val} (hv : Live h v) (hl : h.allocs.length ≤ h'.allocs.length) : Live h' v :=
   fun id e => Nat.lt_of_lt_of_le (hv id e) hl
@@ -94,6 +129,11 @@ theorem payloadOf_bumpAll (h : Heap) (p : List Val) (i : Nat) : payloadOf (bumpA
   induction p generalizing h with
   | nil => rfl
   | cons v vs ih => simp [bumpAll, List.foldl_cons] at ih ⊢; rw [ih, payloadOf_dup]
+
+theorem keysOf_bumpAll (h : Heap) (p : List Val) (i : Nat) : keysOf (bumpAll h p) i = keysOf h i := by
+  induction p generalizing h with
+  | nil => rfl
+  | cons v vs ih => simp [bumpAll, List.foldl_cons] at ih ⊢; rw [ih, keysOf_dup]
 
 theorem pocc_bumpAll (h : Heap) (p : List Val) (i : Nat) : pocc i (bumpAll h p) = pocc i h := by
   induction p generalizing h with
@@ -117,7 +157,7 @@ theorem rcOf_bumpAll (h : Heap) (p : List Val) (i : Nat) (hp : ∀ v ∈ p, Live
     simp [occ_cons]; omega
 
 theorem PayloadExt.bumpAll (h : Heap) (p : List Val) : PayloadExt h (bumpAll h p) :=
-  ⟨by simp [bumpAll_length], fun i _ => payloadOf_bumpAll h p i⟩
+  ⟨by simp [bumpAll_length], fun i _ => payloadOf_bumpAll h p i, fun i _ => keysOf_bumpAll h p i⟩
 
 /-! ### consequences of the invariant -/
 
@@ -216,10 +256,10 @@ theorem dropVal_tr : ∀ (f : Nat) (h : Heap) (v : Val) (F : List Val),
         have hl : id < h.allocs.length := lt_of_rcOf_pos (by omega)
         have hpz : pocc id h = 0 := by omega
         have hfz : occ id F = 0 := by omega
-        have i1 : Inv (setAlloc h id ⟨[], 0⟩) (payloadOf h id ++ F) := by
+        have i1 : Inv (setAlloc h id ⟨[], 0, none⟩) (payloadOf h id ++ F) := by
           intro j
           have hj := i j
-          have hp := pocc_setAlloc h id j ⟨[], 0⟩ hl
+          have hp := pocc_setAlloc h id j ⟨[], 0, none⟩ hl
           simp only [occ_nil, Nat.add_zero] at hp
           simp only [occ_append, rcOf_setAlloc, hl, and_true]
           simp only [occ_cons_ref] at hj
@@ -228,10 +268,10 @@ theorem dropVal_tr : ∀ (f : Nat) (h : Heap) (v : Val) (F : List Val),
           · have : ¬ id = j := fun x => e x.symm
             simp [e, this] at hj ⊢; omega
         have t := dropList_tr ih (payloadOf h id) _ F i1
-        have s0 : Stable h (setAlloc h id ⟨[], 0⟩) F := Stable.setAlloc _ (not_reach_of_zero hpz hfz)
+        have s0 : Stable h (setAlloc h id ⟨[], 0, none⟩) F := Stable.setAlloc _ (not_reach_of_zero hpz hfz)
         refine ⟨t.inv, s0.trans t.stable, fun j hp hle => ?_⟩
         have hne : ¬ j = id := by intro e; subst e; omega
-        have e0 : rcOf (setAlloc h id ⟨[], 0⟩) j = rcOf h j := by simp [rcOf_setAlloc, hne]
+        have e0 : rcOf (setAlloc h id ⟨[], 0, none⟩) j = rcOf h j := by simp [rcOf_setAlloc, hne]
         have := t.tight j (by omega) (by omega)
         omega
       · simp only [hrc, if_false]
@@ -284,8 +324,24 @@ theorem payloadOf_push (h : Heap) (a : Alloc) (c p i : Nat) :
       | zero => omega
       | succ n => simp
 
+theorem keysOf_push (h : Heap) (a : Alloc) (c p i : Nat) :
+    keysOf ⟨h.allocs ++ [a], c, p⟩ i = if i = h.allocs.length then a.keys else keysOf h i := by
+  unfold keysOf
+  simp only [List.getElem?_append]
+  by_cases hl : i < h.allocs.length
+  · have : ¬ i = h.allocs.length := by omega
+    simp [hl, this]
+  · by_cases he : i = h.allocs.length
+    · subst he; simp
+    · have h3 : h.allocs.length ≤ i := by omega
+      simp [hl, he]
+      cases hh : i - h.allocs.length with
+      | zero => omega
+      | succ n => simp
+
 theorem PayloadExt.push (h : Heap) (a : Alloc) (c p : Nat) : PayloadExt h ⟨h.allocs ++ [a], c, p⟩ :=
-  ⟨by simp, fun i hl => by rw [payloadOf_push]; simp [Nat.ne_of_lt hl]⟩
+  ⟨by simp, fun i hl => by rw [payloadOf_push]; simp [Nat.ne_of_lt hl],
+   fun i hl => by rw [keysOf_push]; simp [Nat.ne_of_lt hl]⟩
 
 /-- facts about `Rc::make_mut` on an owned handle -/
 structure MakeMutSpec (h : Heap) (id : Nat) (F : List Val) : Prop where
@@ -293,6 +349,7 @@ structure MakeMutSpec (h : Heap) (id : Nat) (F : List Val) : Prop where
   ext : PayloadExt h (makeMut h id).1
   rc1 : rcOf (makeMut h id).1 (makeMut h id).2 = 1
   pay : payloadOf (makeMut h id).1 (makeMut h id).2 = payloadOf h id
+  keys : keysOf (makeMut h id).1 (makeMut h id).2 = keysOf h id
   lt : (makeMut h id).2 < (makeMut h id).1.allocs.length
   /-- C02: nothing is copied when the count is 1 -/
   nocopy : rcOf h id = 1 → makeMut h id = (h, id)
@@ -303,7 +360,7 @@ theorem makeMut_spec {h : Heap} {id : Nat} {F : List Val} (i : Inv h (.ref id ::
   have hl : id < h.allocs.length := lt_of_rcOf_pos (by omega)
   by_cases hrc : rcOf h id ≤ 1
   · have e : makeMut h id = (h, id) := by simp [makeMut, hrc]
-    refine ⟨?_, ?_, ?_, ?_, ?_, fun _ => e⟩ <;> rw [e]
+    refine ⟨?_, ?_, ?_, ?_, ?_, ?_, fun _ => e⟩ <;> rw [e]
     · exact Tr.refl (by simpa using i)
     · exact PayloadExt.refl h
     · simp; omega
@@ -312,7 +369,7 @@ theorem makeMut_spec {h : Heap} {id : Nat} {F : List Val} (i : Inv h (.ref id ::
     have hp : ∀ v ∈ payloadOf h id, Live (setRc h id (rcOf h id - 1)) v := fun v hv =>
       (i.live_of_payload hv).ext (by simp)
     have e : makeMut h id =
-        (⟨(bumpAll (setRc h id (rcOf h id - 1)) (payloadOf h id)).allocs ++ [⟨payloadOf h id, 1⟩],
+        (⟨(bumpAll (setRc h id (rcOf h id - 1)) (payloadOf h id)).allocs ++ [⟨payloadOf h id, 1, keysOf h id⟩],
           (bumpAll (setRc h id (rcOf h id - 1)) (payloadOf h id)).copied + (payloadOf h id).length,
           (bumpAll (setRc h id (rcOf h id - 1)) (payloadOf h id)).pushes⟩, h.allocs.length) := by
       simp [makeMut, hrc]
@@ -342,7 +399,7 @@ theorem makeMut_spec {h : Heap} {id : Nat} {F : List Val} (i : Inv h (.ref id ::
       rw [rcOf_eq_zero_of_ge (Nat.le_refl _)] at this
       omega
     have hf := hfresh _ i
-    refine ⟨⟨?_, ext.stable F, fun j hpj hle => ?_⟩, ext, ?_, ?_, ?_, fun h1 => by omega⟩
+    refine ⟨⟨?_, ext.stable F, fun j hpj hle => ?_⟩, ext, ?_, ?_, ?_, ?_, fun h1 => by omega⟩
     · intro j
       have hj := i j
       have hpl := occ_payload_le_pocc h id j
@@ -371,6 +428,7 @@ theorem makeMut_spec {h : Heap} {id : Nat} {F : List Val} (i : Inv h (.ref id ::
       simp [e1, e2, this] at hj ⊢; omega
     · rw [hrcs]; simp [e]
     · rw [e]; simp only [payloadOf_push, hlen]; simp
+    · rw [e]; simp only [keysOf_push, hlen]; simp
     · rw [e]; simp [hlen]
 
 end Noulith.RcHeap
